@@ -171,6 +171,8 @@ def instances(rng):
         ValueError(), ValueError('bad', 2), KeyError('k'), OSError(2, 'No such file'),
         pathlib.PurePosixPath('a/../b/c'), pathlib.PurePosixPath('/'), pathlib.PureWindowsPath('C:/x/y'), pathlib.PurePosixPath('/very/long/' + 'segment/' * 12 + 'end'),
         pathlib.PurePosixPath('.'),
+        # runs of slashes survive only at the very start of a POSIX path (exactly two), and must survive the splitting of a long path literal
+        pathlib.PurePosixPath('//fileserver/projects/' + 'segment/' * 9 + 'end'), pathlib.PurePosixPath('//a'), pathlib.PureWindowsPath('//host/share/' + 'dir/' * 12),
     ]
     for _ in range(30):
         out.append(td(days=rng.randint(-2000, 2000), seconds=rng.randint(0, 86399), microseconds=rng.randint(0, 999999)))
@@ -241,7 +243,7 @@ def contains_dst_variant(v, depth=0):
 
 
 def std_chunk(args):
-    seed_, cases_idx = args
+    seed_, cases_idx, mode = args
     if seed_ not in _vals_cache:
         _vals_cache[seed_] = instances(random.Random(seed_))
     vals = _vals_cache[seed_]
@@ -277,7 +279,7 @@ def std_chunk(args):
         if len(fails) < 3:
             bad = None
             kind_override = None
-            if warned:
+            if warned and mode == 'c07':
                 bad = 'a bundled printer failed internally (repr fallback warning)'
             else:
                 ref = None
@@ -290,7 +292,7 @@ def std_chunk(args):
                     except Exception as e:
                         bad = 'printed text does not evaluate (%s): %s' % (type(e).__name__, text[:200])
                         break
-                    if not equal_reconstruction(got, value):
+                    if mode == 'c07' and not equal_reconstruction(got, value):
                         bad = 'evaluates to a different object: %r' % (got,)
                         if contains_dst_variant(value):
                             kind_override = 'pytz-dst-variant-not-reconstructible'
@@ -310,7 +312,12 @@ def std_chunk(args):
     return n, nt, mism, fails
 
 
-def stdlib_section(tier, seed):
+def stdlib_section_c03(tier, seed):
+    """the same instances, judged by C03's oracle only: one syntax tree across all layouts (what the text evaluates to is C07's business)"""
+    return stdlib_section(tier, seed, mode='c03')
+
+
+def stdlib_section(tier, seed, mode='c07'):
     rng = random.Random(seed * 61 + 18)
     iseed = seed * 67 + 1
     vals = instances(random.Random(iseed))
@@ -322,7 +329,7 @@ def stdlib_section(tier, seed):
             sets = settings_for(rng, None, 'quick')[::(1 if tier == 'thorough' else 3)] + [(4, 200, 200, None, 1000, 0), (4, 300, 300, None, 1000, 0)]
             sets = [s_ for s_ in sets if V.ribbon_ok(s_[1], s_[2])]
             cases.append((i, ci, sets))
-    chunks = [(iseed, cases[i:i + 15]) for i in range(0, len(cases), 15)]
+    chunks = [(iseed, cases[i:i + 15], mode) for i in range(0, len(cases), 15)]
     tot = nt = 0
     mism, fails = [], []
     with mp.Pool(min(NCPU, max(1, len(chunks)))) as pool:
